@@ -46,6 +46,7 @@ class Repository(object):
         self._remote_heads = defaultdict(set)
         self._remote_branches = dict()
         self._cloned_heads = None
+        self._cloned_tracking = set()
 
     def delete(self):
         def onerror_cb(func, path, excinfo):
@@ -102,6 +103,9 @@ class Repository(object):
         # propagates the deletion of those.
         self._cloned_heads = set(self.cmd(
             'git for-each-ref --format="%(refname)" refs/heads').split())
+        self._cloned_tracking = set(self.cmd(
+            'git for-each-ref --format="%(refname)" refs/remotes/origin'
+        ).split())
 
     def config(self, key, value):
         self.cmd('git config %s %s', key, value)
@@ -163,13 +167,22 @@ class Repository(object):
                 self.cmd('git push --all --atomic')
                 return
             # Only propagate the branch deletions that were made locally,
-            # i.e. the branches this clone started with and no longer has.
+            # i.e. the branches this clone started with, or pushed itself
+            # since, and no longer has.
             # `git push --prune` would also delete every branch that somebody
             # else created on the remote since this clone was taken.
             local = set(self.cmd(
                 'git for-each-ref --format="%(refname)" refs/heads').split())
+            # no fetch happens after clone(): a new remote-tracking ref can
+            # only come from one of our own pushes
+            tracking = set(self.cmd(
+                'git for-each-ref --format="%(refname)" refs/remotes/origin'
+            ).split()) - self._cloned_tracking
+            pushed = set('refs/heads/' + ref[len('refs/remotes/origin/'):]
+                         for ref in tracking)
             deleted = [quote(':' + ref) for ref in
-                       sorted((self._cloned_heads or set()) - local)]
+                       sorted(((self._cloned_heads or set()) | pushed) -
+                              local)]
             self.cmd("git push --atomic origin 'refs/heads/*:refs/heads/*' " +
                      ' '.join(deleted))
         except CommandError as err:
